@@ -24,7 +24,7 @@ ASSUMPTIONS = [
     "asset caps (GetMesh*, GetTexture*, ViewerAsset*) resolve without region/session unless registered as wrappers, as the code documents",
 ]
 FLOORS = {"quick": {"histories": 600, "lookups": 8000, "seed_flows": 1500, "temporary_resolved": 150, "proxy_cap_twice": 150,
-                    "regrant_same_name": 300, "ambiguous_lookups": 50, "circuit_torn_down": 30, "seed_overlaps": 8, "used_up_rechecked": 100}}
+                    "regrant_same_name": 300, "ambiguous_lookups": 50, "circuit_torn_down": 12, "regrant_older_url": 40, "seed_overlaps": 8, "used_up_rechecked": 100}}
 MANIFEST = {
     "text": "Model-based testing of the caps registry through its public entry points and real Seed flows: after every operation "
             "every URL ever granted is resolved (with suffixes) and every name looked up, and compared with a reference model of "
@@ -370,6 +370,14 @@ class Run:
                     out.append(("proxy-cap:new-url-on-reregistration", "register_proxy_cap(%s) twice in a row: %s then %s" % (name, url, url2)))
                     m.add(key, name, CapType.PROXY_ONLY, url2)
             self.nontrivial = True
+        elif k == "regrant3":
+            # the simulator grants a cap as u1, then as u2, then as u1 again (three Seed cycles)
+            _, s, r, name = op
+            for reuse in (False, False, True):
+                res = self.step(("seed", s, r, [name], reuse, False, [], True))
+                if res:
+                    return res
+            return out
         elif k == "seed_overlap":
             # the viewer has two Seed requests for one region in flight (it re-requests capabilities it is still missing): the first lists
             # proxy-only names, the second does not; the answers come back in order.  What is added to an answer belongs to its own request
@@ -462,6 +470,7 @@ OP = st.one_of(
     st.tuples(st.just("seed"), st.integers(0, 1), st.integers(0, 1), st.lists(st.sampled_from(NAMES), min_size=0, max_size=6, unique=True),
               st.booleans(), st.booleans(), st.lists(st.sampled_from(PROXY_NAMES), max_size=3, unique=True), st.booleans()),
     st.tuples(st.just("circuit"), st.integers(0, 1), st.integers(0, 1), st.booleans()),
+    st.tuples(st.just("regrant3"), st.integers(0, 1), st.integers(0, 1), st.sampled_from(NAMES[:6])),
     st.tuples(st.just("seed_overlap"), st.integers(0, 1), st.integers(0, 1), st.lists(st.sampled_from(NAMES[:6]), max_size=3, unique=True),
               st.lists(st.sampled_from(NAMES[:6]), max_size=3, unique=True), st.lists(st.sampled_from(PROXY_NAMES), min_size=1, max_size=3, unique=True)),
     st.tuples(st.just("register"), st.integers(0, 1), st.integers(0, 1), st.sampled_from(["UploadBakedTexture", "NewFileAgentInventory", "Custom"]),
